@@ -297,7 +297,13 @@ def run(ctx, res):
 
 def replay(ctx, case):
     c = case["case"] if "case" in case else case
+    if c.get("kind") == "isolation":
+        r = core.Result(ID)
+        tables_do_not_depend_on_loaded_versions(r)
+        return {"violations": [v.what for v in r.violations][:4], "violates": bool(r.violations)}
     o = impl_one(c)
+    if c.get("kind") == "validate" and version_rule(c, o):
+        return {"case": c, "impl": o, "rule": version_rule(c, o), "violates": True}
     out = {"case": c, "impl": o}
     if ctx.model is not None:
         out["model_spec"] = ctx.model.batch(model_lines(c))
